@@ -122,7 +122,12 @@ Pick(q) ==
          replay == IF skipSync THEN UnlockTasks(merged) ELSE <<>>
          kept == <<merged>> \o SubSeq(queues[q], 2 + Len(fs), Len(queues[q]))
      IN /\ run' = [run EXCEPT ![q] = [task |-> merged, all |-> all, exec |-> exec,
-                                      snap |-> [i \in 1..Len(MonSeq(merged)) |-> [b |-> MonSeq(merged)[i][2], n |-> nobj[MonSeq(merged)[i]]]]]]
+                                      \* what the snapshots of this execution show: per kubernetes binding of the hook
+                                      \* the objects existing now (nothing for a binding whose monitor does not exist yet)
+                                      snap |-> LET h == HookByName(t.hook) IN
+                                               [j \in 1..Len(h.kube) |-> [b |-> h.kube[j].name,
+                                                                          n |-> IF mstate[<<h.name, h.kube[j].name>>] = "off" THEN 0
+                                                                                ELSE nobj[<<h.name, h.kube[j].name>>]]]]]
         \* the merged followers leave the queue, the head stays (with the combined contexts) until the result is applied
         /\ queues' = AppendAll([queues EXCEPT ![q] = kept], replay)
         /\ nextId' = nextId + Len(replay)
